@@ -288,6 +288,13 @@ def run_once(case, env, tmpdir, state, fault, res, buffered=False):
     out = FaultOut(sys.stdout, probe, tty=True, buffered=buffered)
     saved = sys.stdout
     sys.stdout = out
+    # the graphics styles bound ``sys.stdout.write`` to a module-level name at import (their
+    # frame-clearing / delete commands go through it): those writes are operations too
+    import term_image.image.iterm2 as _im2
+    import term_image.image.kitty as _imk
+
+    saved_w = (_imk._stdout_write, _im2._stdout_write)
+    _imk._stdout_write = _im2._stdout_write = out.write
     outcome = "returned"
     try:
         with dl.patched_time(vtime):
@@ -298,6 +305,7 @@ def run_once(case, env, tmpdir, state, fault, res, buffered=False):
         outcome = type(e).__name__
     finally:
         sys.stdout = saved
+        _imk._stdout_write, _im2._stdout_write = saved_w
         if buffered:
             out.deliver_pending()  # whatever is still buffered reaches the terminal later
     data = env.take()
